@@ -142,6 +142,239 @@ theorem wf_iff (c : Conf α) : WF c ↔ wfB c = true := by
       rw [this] at h2; cases h2
     · exact h2
 
+/-! ### the whole network: environment moves and reachability
+
+The environment's moves on the graph semantics (`envNextG`: the two hand-off conditions are read off the KIND of the
+program point) are the model's `envNext`, hence the runs of the graph semantics and the runs of the model are the same
+runs: every theorem of Props/C08 about `Unbound.Reachable` states is a theorem about the runs of the compiled graph. -/
+
+theorem twelve (k : Nat) (h : k < 12) : k = 0 ∨ k = 1 ∨ k = 2 ∨ k = 3 ∨ k = 4 ∨ k = 5 ∨ k = 6 ∨ k = 7 ∨ k = 8 ∨ k = 9 ∨ k = 10 ∨ k = 11 := by omega
+
+theorem recvReadyG_val (k : Nat) (reg : Option α) (st : Net α) (hk : k < 12) :
+    recvReadyG pumpGraph ⟨k, reg, st⟩ = if k = 0 ∨ k = 1 ∨ k = 9 then 1 else 0 := by
+  rcases twelve k hk with rfl | rfl | rfl | rfl | rfl | rfl | rfl | rfl | rfl | rfl | rfl | rfl <;> rfl
+
+theorem recvReady_abs (c : Conf α) (h : WF c) : recvReady (abs c) = if c.node = 0 ∨ c.node = 1 then 1 else 0 := by
+  obtain ⟨k, reg, st⟩ := c
+  obtain ⟨hlt, hreg⟩ := h
+  simp only at hlt hreg
+  rcases twelve k hlt with rfl | rfl | rfl | rfl | rfl | rfl | rfl | rfl | rfl | rfl | rfl | rfl <;>
+    (try (cases reg <;> simp_all [recvReady, abs, pcOf])) <;> simp [recvReady, abs, pcOf]
+
+theorem sendsHead_val (k : Nat) (hk : k < 12) :
+    (pumpGraph[k]?).bind Node.sendsHead = if k = 0 then some 4 else if k = 3 then some 7 else none := by
+  rcases twelve k hk with rfl | rfl | rfl | rfl | rfl | rfl | rfl | rfl | rfl | rfl | rfl | rfl <;> rfl
+
+theorem abs_st (c : Conf α) : (abs c).inp = c.st.inp ∧ (abs c).eg = c.st.eg ∧ (abs c).mq = c.st.mq ∧ (abs c).sent = c.st.sent ∧
+    (abs c).delivered = c.st.delivered ∧ (abs c).cancelled = c.st.cancelled ∧ (abs c).panicked = c.st.panicked := by
+  simp [abs]
+
+theorem env_send (c : Conf α) (h : WF c) (hr : c.node = 9 → c.st.inp.closed = true) (v : α) :
+    (envNextG pumpGraph c (.send v)).map (fun qo => (abs qo.1, qo.2)) = envNext (abs c) (.send v) := by
+  have h1 := recvReadyG_val c.node c.reg c.st h.1
+  have h2 := recvReady_abs c h
+  have hi : (abs c).inp = c.st.inp := rfl
+  simp only [envNext, h2, hi]
+  have h1' : recvReadyG pumpGraph c = if c.node = 0 ∨ c.node = 1 ∨ c.node = 9 then 1 else 0 := h1
+  simp only [envNextG, h1']
+  by_cases hc : c.st.inp.closed = true
+  · simp [hc]
+  · have h9 : c.node ≠ 9 := fun e => hc (hr e)
+    have : (c.node = 0 ∨ c.node = 1 ∨ c.node = 9) ↔ (c.node = 0 ∨ c.node = 1) := by
+      constructor
+      · rintro (h | h | h)
+        · exact Or.inl h
+        · exact Or.inr h
+        · exact absurd h h9
+      · rintro (h | h)
+        · exact Or.inl h
+        · exact Or.inr (Or.inl h)
+    simp only [this, hc]
+    generalize (if c.node = 0 ∨ c.node = 1 then 1 else 0) = r
+    by_cases hl : c.st.inp.buf.length < c.st.inp.cap + r <;> simp [hl, abs]
+
+theorem env_close_cancel (c : Conf α) :
+    (envNextG pumpGraph c .close).map (fun qo => (abs qo.1, qo.2)) = envNext (abs c) .close ∧
+    (envNextG pumpGraph c .cancel).map (fun qo => (abs qo.1, qo.2)) = envNext (abs c) .cancel := by
+  have hi : (abs c).inp = c.st.inp := rfl
+  constructor
+  · simp only [envNextG, envNext, hi]; split <;> simp [abs]
+  · simp [envNextG, envNext, abs]
+
+theorem handoff_is_graph (c : Conf α) (h : WF c) :
+    (handoffG pumpGraph c).map (fun qv => (abs qv.1, qv.2)) = handoff (abs c) := by
+  have hs := sendsHead_val c.node h.1
+  obtain ⟨node, reg, st⟩ := c
+  obtain ⟨hlt, hreg⟩ := h
+  simp only at hlt hreg hs
+  simp only [handoffG, handoff, hs]
+  have he : (abs (⟨node, reg, st⟩ : Conf α)).eg = st.eg := rfl
+  have hm : (abs (⟨node, reg, st⟩ : Conf α)).mq = st.mq := rfl
+  simp only [he, hm]
+  by_cases hb : st.eg.closed = true ∨ st.eg.buf ≠ []
+  · simp [hb]
+  · simp only [hb, if_false]
+    rcases twelve node hlt with rfl | rfl | rfl | rfl | rfl | rfl | rfl | rfl | rfl | rfl | rfl | rfl <;>
+      cases hq : st.mq <;> (try (cases reg)) <;> simp_all [abs, pcOf]
+
+theorem env_recv (c : Conf α) (h : WF c) :
+    (envNextG pumpGraph c .recv).map (fun qo => (abs qo.1, qo.2)) = envNext (abs c) .recv := by
+  have hh := handoff_is_graph c h
+  have he : (abs c).eg = c.st.eg := rfl
+  simp only [envNextG, envNext, he]
+  cases hb : c.st.eg.buf with
+  | cons v rest => simp [abs]
+  | nil =>
+    simp only []
+    rw [← hh]
+    cases hg : handoffG pumpGraph c with
+    | nil => simp [abs]
+    | cons x xs => simp [List.map_map, Function.comp_def]
+
+/-- all environment moves -/
+theorem env_is_graph (c : Conf α) (h : WF c) (hr : c.node = 9 → c.st.inp.closed = true) (m : Move α) :
+    (envNextG pumpGraph c m).map (fun qo => (abs qo.1, qo.2)) = envNext (abs c) m := by
+  cases m with
+  | send v => exact env_send c h hr v
+  | close => exact (env_close_cancel c).1
+  | recv => exact env_recv c h
+  | cancel => exact (env_close_cancel c).2
+
+
+/-- invariant of the graph runs (Boolean): a known program point, a value in the register where one is about to be
+queued, and the send side closed at the range loop -/
+def GInvB (c : Conf α) : Bool :=
+  decide (c.node < 12) && (!(c.node == 2 || c.node == 5 || c.node == 11) || c.reg.isSome) && (!(c.node == 9 || c.node == 11) || c.st.inp.closed)
+
+theorem ginv_step (c : Conf α) (h : GInvB c = true) : (step pumpGraph c).all GInvB = true := by
+  obtain ⟨node, reg, st⟩ := c
+  simp only [GInvB, Bool.and_eq_true, decide_eq_true_eq] at h
+  have : node = 0 ∨ node = 1 ∨ node = 2 ∨ node = 3 ∨ node = 4 ∨ node = 5 ∨ node = 6 ∨ node = 7 ∨ node = 8 ∨ node = 9 ∨ node = 10 ∨ node = 11 := by omega
+  rcases this with rfl | rfl | rfl | rfl | rfl | rfl | rfl | rfl | rfl | rfl | rfl | rfl
+  · cases hc : st.cancelled <;> cases hb : st.inp.buf <;> cases hcl : st.inp.closed <;> cases hq : st.mq <;>
+      cases hec : st.eg.closed <;> by_cases hroom : st.eg.buf.length < st.eg.cap <;>
+      simp_all [step, pumpGraph, stepNode, stepArm, sendHeadEg, GInvB, pushEg]
+  · cases hb : st.inp.buf <;> cases hcl : st.inp.closed <;> simp_all [step, pumpGraph, stepNode, stepArm, GInvB]
+  · cases hr : reg <;> simp_all [step, pumpGraph, stepNode, GInvB]
+  · cases hq : st.mq <;> cases hec : st.eg.closed <;> by_cases hroom : st.eg.buf.length < st.eg.cap <;>
+      simp_all [step, pumpGraph, stepNode, sendHeadEg, GInvB, pushEg]
+  · simp_all [step, pumpGraph, stepNode, GInvB]
+  · cases hr : reg <;> simp_all [step, pumpGraph, stepNode, GInvB]
+  · cases hcl : st.inp.closed <;> simp_all [step, pumpGraph, stepNode, GInvB]
+  · simp_all [step, pumpGraph, stepNode, GInvB]
+  · cases hec : st.eg.closed <;> simp_all [step, pumpGraph, stepNode, GInvB]
+  · cases hb : st.inp.buf <;> cases hcl : st.inp.closed <;> simp_all [step, pumpGraph, stepNode, stepArm, GInvB]
+  · simp_all [step, pumpGraph, stepNode, GInvB]
+  · cases hr : reg <;> simp_all [step, pumpGraph, stepNode, GInvB]
+
+theorem ginv_mono (n : Nat) (r : Option α) (st st' : Net α) (h : GInvB ⟨n, r, st⟩ = true)
+    (hc : st.inp.closed = true → st'.inp.closed = true) : GInvB ⟨n, r, st'⟩ = true := by
+  simp only [GInvB, Bool.and_eq_true, Bool.or_eq_true, Bool.not_eq_true', decide_eq_true_eq] at h ⊢
+  refine ⟨h.1, ?_⟩
+  rcases h.2 with h2 | h2
+  · exact Or.inl h2
+  · exact Or.inr (hc h2)
+
+theorem ginv_env (c : Conf α) (h : GInvB c = true) (m : Move α) : (envNextG pumpGraph c m).all (fun qo => GInvB qo.1) = true := by
+  obtain ⟨node, reg, st⟩ := c
+  cases m with
+  | send v =>
+    simp only [envNextG]
+    split
+    · simpa using h
+    · split
+      · simp only [List.all_cons, List.all_nil, Bool.and_true]
+        exact ginv_mono node reg st _ h (fun hc => hc)
+      · simpa using h
+  | close =>
+    simp only [envNextG]
+    split
+    · simpa using h
+    · simp only [List.all_cons, List.all_nil, Bool.and_true]
+      exact ginv_mono node reg st _ h (fun _ => rfl)
+  | cancel =>
+    simp only [envNextG, List.all_cons, List.all_nil, Bool.and_true]
+    exact ginv_mono node reg st _ h (fun hc => hc)
+  | recv =>
+    simp only [envNextG]
+    cases hb : st.eg.buf with
+    | cons v rest =>
+      simp only [List.all_cons, List.all_nil, Bool.and_true]
+      exact ginv_mono node reg st _ h (fun hc => hc)
+    | nil =>
+      have hlt : node < 12 := by
+        simp only [GInvB, Bool.and_eq_true, decide_eq_true_eq] at h; exact h.1.1
+      simp only [GInvB, Bool.and_eq_true, decide_eq_true_eq] at h
+      simp only [handoffG]
+      rcases twelve node hlt with rfl | rfl | rfl | rfl | rfl | rfl | rfl | rfl | rfl | rfl | rfl | rfl <;>
+        cases hq : st.mq <;> cases hec : st.eg.closed <;> simp_all [GInvB, pumpGraph, Node.sendsHead]
+
+theorem ginv_wf (c : Conf α) (h : GInvB c = true) : WF c ∧ (c.node = 9 → c.st.inp.closed = true) := by
+  simp only [GInvB, Bool.and_eq_true, Bool.or_eq_true, Bool.not_eq_true', decide_eq_true_eq, beq_iff_eq] at h
+  refine ⟨⟨h.1.1, fun hn => ?_⟩, fun h9 => ?_⟩
+  · rcases h.1.2 with h2 | h2
+    · exfalso
+      have : (c.node == 2 || c.node == 5 || c.node == 11) = true := by
+        simp only [Bool.or_eq_true, beq_iff_eq]
+        rcases hn with hn | hn | hn
+        · exact Or.inl (Or.inl hn)
+        · exact Or.inl (Or.inr hn)
+        · exact Or.inr hn
+      rw [this] at h2; cases h2
+    · exact h2
+  · rcases h.2 with h2 | h2
+    · exfalso
+      have : (c.node == 9 || c.node == 11) = true := by simp [h9]
+      rw [this] at h2; cases h2
+    · exact h2
+
+/-- the invariant holds along every run of the graph semantics -/
+theorem greachable_inv (cap : Nat) (c : Conf α) (h : GReachable pumpGraph cap c) : GInvB c = true := by
+  induction h with
+  | init => rfl
+  | step _ hs ih =>
+    rcases hs with ⟨_, hs⟩ | ⟨m, o, hs⟩
+    · exact List.all_eq_true.mp (ginv_step _ ih) _ hs
+    · exact List.all_eq_true.mp (ginv_env _ ih m) _ hs
+
+/-- every run of the compiled graph is a run of the model … -/
+theorem graph_run_is_model_run (cap : Nat) (c : Conf α) (h : GReachable pumpGraph cap c) : Unbound.Reachable cap (abs c) := by
+  induction h with
+  | init => exact Unbound.Reachable.init
+  | @step c c' hr hs ih =>
+    have hi := ginv_wf c (greachable_inv cap c hr)
+    refine Unbound.Reachable.step ih ?_
+    rcases hs with ⟨hp, hs⟩ | ⟨m, o, hs⟩
+    · left
+      have : (abs c).panicked = false := hp
+      simp only [Unbound.procNext, this]
+      exact graph_step_sound c c' hi.1 hs
+    · right
+      refine ⟨m, o, ?_⟩
+      rw [← env_is_graph c hi.1 hi.2 m]
+      exact List.mem_map.mpr ⟨(c', o), hs, rfl⟩
+
+/-- … and every run of the model is a run of the compiled graph -/
+theorem model_run_is_graph_run (cap : Nat) (p : Net α) (h : Unbound.Reachable cap p) :
+    ∃ c, GReachable pumpGraph cap c ∧ abs c = p := by
+  induction h with
+  | init => exact ⟨_, GReachable.init, rfl⟩
+  | @step p q _ hs ih =>
+    obtain ⟨c, hc, rfl⟩ := ih
+    have hi := ginv_wf c (greachable_inv cap c hc)
+    rcases hs with hs | ⟨m, o, hs⟩
+    · have hp : (abs c).panicked = false := by
+        cases hpn : (abs c).panicked
+        · rfl
+        · simp [Unbound.procNext, hpn] at hs
+      simp only [Unbound.procNext, hp] at hs
+      obtain ⟨c', hc', rfl⟩ := graph_step_complete c hi.1 _ hs
+      exact ⟨c', GReachable.step hc (Or.inl ⟨hp, hc'⟩), rfl⟩
+    · rw [← env_is_graph c hi.1 hi.2 m] at hs
+      obtain ⟨⟨c', o'⟩, hc', he⟩ := List.mem_map.mp hs
+      simp only [Prod.mk.injEq] at he
+      exact ⟨c', GReachable.step hc (Or.inr ⟨m, o', hc'⟩), he.1⟩
+
 /-! ### pipe/queue.go: the pointer programs as regenerated (go/xlate family `queue`) are the arena functions of
 Model/Queue.lean, which `queue_refines_fifo` relates to the backlog list of the pump's model -/
 
